@@ -5,7 +5,7 @@
    (partial writes, accept-0, EAGAIN/EINTR, errors, call costs), all selector answers, all timeouts and retry
    intervals.  `sk_wire` is the sequence of bytes the socket accepted, in order. *)
 From Coq Require Import ZArith List Bool Lia Arith.
-From EN Require Import Lib.Bytes IO.Retry IO.SendAll IO.SendMsg IO.TlsWrite Proofs.C04_adjust Proofs.C04_send.
+From EN Require Import Lib.Bytes IO.Retry IO.SendAll IO.SendMsg IO.TlsWrite IO.ClientLocks Proofs.C04_adjust Proofs.C04_send Proofs.C11_locks.
 Import ListNotations.
 
 (* adjust_leftover_buffer(buffers, n): afterwards the deque represents the unsent suffix, and a deque of non-empty
@@ -113,6 +113,24 @@ Theorem tls_write_terminates :
     sr_out (tls_write_loop fuel backlog s) <> SFuel.
 Proof. exact tls_write_loop_terminates. Qed.
 Print Assumptions tls_write_terminates.
+
+(* Client level (TCPNetworkClient / UDPNetworkClient.send_packet behind the send lock, IO/ClientLocks.v): whatever
+   the interleaving of calls, grants, give-ups and failing bodies, once every call has ended both locks are free --
+   so a later send_packet never burns its budget on a lock nobody holds -- and a send never waits on the receive lock. *)
+Theorem client_locks_free_at_quiescence :
+  forall s : cst,
+    reachable s -> (forall c, In c (cs s) -> exists code, c_ph c = PDone code) ->
+    o_send s = None /\ o_recv s = None.
+Proof. exact quiescent_locks_free. Qed.
+Print Assumptions client_locks_free_at_quiescence.
+
+Theorem send_packet_never_waits_on_recv_lock :
+  forall (s : cst) (k : nat) (T : tmo),
+    lookup k (cs s) = None -> o_send s = None -> tmo_neg T = false ->
+    exists s', step s (Start k MSend T) = Some s'
+               /\ lookup k (cs s') = Some (mk_call k MSend PHold) /\ o_recv s' = o_recv s.
+Proof. exact send_ignores_recv_lock. Qed.
+Print Assumptions send_packet_never_waits_on_recv_lock.
 
 (* ---- non-vacuity: partial writes, a would-block answered by the selector, an empty chunk in the middle *)
 Example send_iter_runs :
